@@ -310,4 +310,3 @@ func c07E2E(a lib.Args, res *lib.Result) error {
 	}
 	return nil
 }
-
